@@ -114,6 +114,9 @@ var crossMemo = map[string][]CrossDoc{}
 var crossBuilding bool
 
 func crossPath(tier string) string {
+	if d := os.Getenv("VERIF_CROSS_DIR"); d != "" {
+		return filepath.Join(d, "cross-"+tier+".json")
+	}
 	exe, err := os.Executable()
 	if err != nil {
 		return ""
